@@ -5,6 +5,9 @@ import Dashu.Model.Text.Capacity
 import Dashu.Model.Text.ChunksWord
 import Dashu.Model.Text.FmtLow
 import Dashu.Model.Float.RoundOps
+import Dashu.Driver.TextDebug
+import Dashu.Model.Text.Pieces
+import Dashu.Model.Text.ChunksGuard
 /-
   Driver of group `text` (C07): integer formatting, parsing, byte and chunk encodings.
   For every case the *required* result (specification side: `digits`/`pad_integral`/grammar/
@@ -52,7 +55,7 @@ def fmtOp (W : Nat) (t fa fl w : String) (z : Int) : Option String := do
   else
     -- the model side is the mirrored low layer: reciprocal division by the radix (`FastDivideSmall`), SWAR
     -- digit → ASCII, buffered `DigitWriter` (Model/Text/FmtLow.lean; = `fmtModel` by `print_on_mirrored_low_layer`)
-    let m := match fmtModelF W t f z with
+    let m := match fmtModelP W t f z with    -- recorded `DigitWriter::write` pieces (Model/Text/Pieces.lean; = fmtModel by `print_on_recorded_pieces`)
       | .ok bs => natBytesToStr bs
       | .error e => "!model-low-layer-panic " ++ (toString (repr e)).replace " " "_"
     let s := natBytesToStr (fmtSpec t f z)
@@ -136,9 +139,15 @@ def flagStr : Option Dashu.Model.Float.Rounding → String
   | none => "Exact"
   | some r => "Inexact:" ++ Dashu.Model.Float.rName r
 
+/-- the exponent of a `Repr` is an `isize` -/
+def isizeOk (z : Int) : Bool := decide (-(2 ^ 63 : Int) ≤ z) && decide (z < (2 ^ 63 : Int))
+
+/-- result of a parse.  The model's exponent is an unbounded integer; a literal whose exact value needs an
+    exponent outside the `isize` range is not representable and must be rejected: the required answer is then an
+    error (`InvalidDigit`, the kind the code returns for a scale that does not fit an `isize`) -/
 def fparseRes (r : Except ParseError (Dashu.Model.Float.FRepr × Nat)) : String :=
   match r with
-  | .ok (v, n) => "ok " ++ reprStr v ++ " " ++ toString n
+  | .ok (v, n) => if isizeOk v.exp then "ok " ++ reprStr v ++ " " ++ toString n else "err InvalidDigit"
   | .error e => "err " ++ e.name
 
 def optNat (s : String) : Option (Option Nat) :=
@@ -190,11 +199,13 @@ def floatDispatch (W : Nat) (op : String) (args : List String) : Option String :
     let out := "ok " ++ reprStr r.1.repr ++ " " ++ toString r.1.prec ++ " " ++ flagStr r.2
     -- specification side (the clause of C08): precision p; for p ≥ 1 the contract of C03 for the exact value and at
     -- most p digits whenever the precision shrinks (unlimited = larger than any p); for p = 0 the value unchanged
-    let x := a.repr.toRat B
+    -- (the contract is invariant under scaling by a power of the base: it is evaluated with the exponent of the
+    --  argument moved to 0, so that exponents of any magnitude can be driven)
+    let x := (⟨a.repr.signif, 0⟩ : FRepr).toRat B
     let okSpec :=
       r.1.prec = p ∧
       (if p = 0 then r.1.repr = a.repr ∧ r.2 = none
-       else contractOk B a.mode p x (r.1.repr.toRat B) r.2 ∧
+       else contractOk B a.mode p x ((⟨r.1.repr.signif, r.1.repr.exp - a.repr.exp⟩ : FRepr).toRat B) r.2 ∧
          ((a.prec > p ∨ a.prec = 0) → r.1.repr.digits B ≤ p) ∧
          (¬ (a.prec > p ∨ a.prec = 0) → r.1.repr = a.repr ∧ r.2 = none))
     pure (if okSpec then out else out ++ " !model-spec-mismatch with_precision")
@@ -254,15 +265,15 @@ def dispatch : Dispatch := fun W op args =>
         let out := "ok " ++ natToHex p.m ++ " d:" ++ toString p.shift ++ " " ++ natToHex q ++ " " ++ natToHex r
         pure (if q = a / d ∧ r = a % d then out else out ++ " !model-spec-mismatch fastdiv")
   -- `{:?}` (`DoubleEnd`): sign, all / first..last decimal digits, `#` appends the digit and bit counts; the width
-  -- is ignored by the implementation (correspondence only: the text is not a positional representation)
+  -- is ignored by the implementation; model = mirrored DoubleEnd (Driver/TextDebug.lean), spec = debugSpec (Props/C07Debug)
   | "u.dbg", [fl, w, n] => do
     let _ ← parseWidth w
     if fl ≠ "-" ∧ fl ≠ "+" ∧ fl ≠ "#" ∧ fl ≠ "+#" then none
-    pure ("ok " ++ natBytesToStr (debugInt W (fl.contains '#') (fl.contains '+') (Int.ofNat (← parseNat n))))
+    pure (Dashu.Driver.TextDebug.dbgOp natBytesToStr W (fl.contains '#') (fl.contains '+') (Int.ofNat (← parseNat n)))
   | "i.dbg", [fl, w, n] => do
     let _ ← parseWidth w
     if fl ≠ "-" ∧ fl ≠ "+" ∧ fl ≠ "#" ∧ fl ≠ "+#" then none
-    pure ("ok " ++ natBytesToStr (debugInt W (fl.contains '#') (fl.contains '+') (← parseInt n)))
+    pure (Dashu.Driver.TextDebug.dbgOp natBytesToStr W (fl.contains '#') (fl.contains '+') (← parseInt n))
   | "u.parse", [s, r] => do
     let s ← parseStr s; let r ← parseDecNat r
     pure (flag (resInt (parseRadix W false s r)) (resInt (parseRadixSpec false s r)) false ++ boundedParse W false s r)
@@ -315,7 +326,7 @@ def dispatch : Dispatch := fun W op args =>
   -- ---------------------------------------------------------------- chunks
   | "u.chunks", [n, k] => do
     let n ← parseNat n; let k ← parseDecNat k
-    let spec := if k = 0 then "panic ChunkBitsZero" else "ok " ++ chunksStr (chunksSpec n k)
+    let spec := if k = 0 then "panic ChunkBitsZero" else "ok " ++ chunksStr (chunksSpecG n k)   -- = chunksSpec (never forms 2^k for k ≥ bit_len)
     let model := match toChunksW W n k with
       | .ok cs => "ok " ++ chunksStr cs
       | .error .chunkBitsZero => "panic ChunkBitsZero"
@@ -323,7 +334,7 @@ def dispatch : Dispatch := fun W op args =>
   | "u.from_chunks", k :: cs => do
     let k ← parseDecNat k
     let cs ← cs.mapM parseNat
-    let spec := if k = 0 then "panic ChunkBitsZero" else "ok " ++ natToHex (ofChunksSpec k cs)
+    let spec := if k = 0 then "panic ChunkBitsZero" else "ok " ++ natToHex (ofChunksSpecG k cs)  -- = ofChunksSpec
     let model := match fromChunksW W k (cs.map (wordsOf W)) with
       | .ok v => "ok " ++ natToHex v
       | .error .chunkBitsZero => "panic ChunkBitsZero"
